@@ -16,7 +16,7 @@ from ..runner import Stats, reset_library_state
 PROP = "C18"
 BUDGET = {"quick": 300, "thorough": 3000}
 META = {
-    "rule": "(A) every operator string of length <=4 over 2 modes (340) as a single term x every basis layout (two one-mode sites with every subset/order of {|0>,|1>}; one two-mode site with every "
+    "rule": "(A) every operator string of length 0 (the constant term) to 4 over 2 modes (341) as a single term x every basis layout (two one-mode sites with every subset/order of {|0>,|1>}; one two-mode site with every "
     "order of the four states x both operator orders in |11>, and every 2-/3-state subset), each also summed with every string of the same net effect (accumulation / cancellation) on four layouts; "
     "strings of length <=3 over 3 modes on three sites; spellings FermionicOperator / (label, '+'); (B) for Z2, U1 (spinless, spinful), Z2Z2, U1U1: build_local_fermionic_array for every "
     "charge-conserving normal-ordered string of length 2 and 4 over the site modes and the five model builders with several parameter sets, applied by tensordot to the unit state tensor of every "
@@ -49,7 +49,8 @@ def fo(terms=None, bases=None, spell="obj"):
 
 def strings(modes, maxlen):
     syms = [(m, d) for m in modes for d in (True, False)]
-    for n in range(1, maxlen + 1):
+    # length 0 is the constant term c * 1
+    for n in range(0, maxlen + 1):
         yield from itertools.product(syms, repeat=n)
 
 
@@ -301,9 +302,18 @@ def array_case_failures(sym, kind, nsites, st=None):
                 H, _ = RF.true_matrix(herm, bases)
                 if not np.allclose(np.linalg.eigvalsh(M), np.linalg.eigvalsh(H), atol=1e-9):
                     fails.append(("C18/hermitian/spectrum", f"{sym} {kind}: {s}"))
+    # the empty string (a constant c * 1): alone, as an energy shift of a Hermitian term set, and as a factor
+    check("constant", [(0.37, [])])
+    for k, s in enumerate(strs[:4]):
+        herm = [(COEFF[k % 8], list(s)), (COEFF[k % 8], [(m, not d) for m, d in reversed(s)]), (-1.3, [])]
+        M = check("shifted-hermitian", herm)
+        if M is not None:
+            H, _ = RF.true_matrix(herm, bases)
+            if np.any(np.abs(M - M.conj().T) > 1e-9) or not np.allclose(np.linalg.eigvalsh(M), np.linalg.eigvalsh(H), atol=1e-9):
+                fails.append(("C18/shifted-hermitian/spectrum", f"{sym} {kind}: {s} - 1.3"))
     # products of operator arrays (complete bases only)
     if complete:
-        menu = strs[:: max(1, len(strs) // 6)][:6]
+        menu = [()] + list(strs[:: max(1, len(strs) // 6)][:6])
         for s1, s2 in itertools.product(menu, repeat=2):
             t1, t2 = [(1.3, list(s1))], [(-0.7, list(s2))]
             t12 = [(1.3 * -0.7, list(s1) + list(s2))]
